@@ -747,11 +747,12 @@ theorem svcHolds_eq_has (c : Cfg) (s : Svc) (site : Option String) (p : String)
   · simp [hp]
   · simp only [hp, Bool.false_eq_true, if_false]
     by_cases hq : s.hollow.contains p = true
-    · have : c.svcFalsyCapable.contains p = false := by
-        have := hh p (by simpa using hq)
-        simpa using this
-      simp [this]
-    · simp [hq]
+    · have h2 : p ∉ c.svcFalsyCapable := hh p (by simpa using hq)
+      simp
+      exact fun _ => Or.inr h2
+    · have h2 : p ∉ s.hollow := by simpa using hq
+      simp
+      exact fun _ => Or.inl h2
 
 theorem svcOK_iff_full (c : Cfg) (exp : Bool) (row : SvcRow) (s : Svc)
     (hread : ∀ p ∈ row.req ++ row.forb, p ∈ c.svcGetters ∧ p ∈ c.svcShallow)
